@@ -197,23 +197,40 @@ func classify(m *refmodel.Model, conn int, a []B, now time.Time) string {
 			}
 		}
 	case "xadd":
-		for _, x := range a[2:] {
-			s := string(x)
-			if s == "*" {
-				add("auto-id")
-				break
-			}
-			if strings.HasSuffix(s, "-*") {
-				add("partial-id")
-				break
-			}
-			if len(s) > 0 && s[0] >= '0' && s[0] <= '9' {
-				if strings.Contains(s, "-") {
-					add("explicit-id")
-				} else {
-					add("ms-only-id")
+		// locate the ID argument behind the options
+		k := 2
+		for k < len(a) {
+			o := strings.ToLower(string(a[k]))
+			if o == "nomkstream" {
+				k++
+			} else if o == "maxlen" || o == "minid" {
+				k++
+				if k < len(a) && (string(a[k]) == "=" || string(a[k]) == "~") {
+					k++
 				}
+				k++
+			} else if o == "limit" {
+				k += 2
+			} else {
 				break
+			}
+		}
+		if k < len(a) {
+			s := string(a[k])
+			switch {
+			case s == "*":
+				add("auto-id")
+			case strings.HasSuffix(s, "-*"):
+				add("partial-id")
+			case strings.Contains(s, "-"):
+				add("explicit-id")
+			default:
+				add("ms-only-id")
+			}
+			for _, part := range strings.SplitN(strings.TrimSuffix(s, "-*"), "-", 2) {
+				if v, err := strconv.ParseUint(part, 10, 64); err == nil && v > 1<<63-1 {
+					add("id-above-int64")
+				}
 			}
 		}
 		if e, ok := db.Keys[string(a[1])]; ok && e.T == refmodel.TStream && len(e.X) > 0 {
